@@ -22,6 +22,8 @@ mod error;
 mod imp;
 mod path;
 mod tests;
+#[cfg(all(aranya_verif, feature = "std"))]
+pub mod verif;
 
 pub use error::Error;
 pub use imp::*;
